@@ -356,9 +356,217 @@ def rule_c(chk, prog):
                               "soils it ends above its own saturation or below it", loc=fi.loc(a))
     chk.floor("C03.c", n, 4, "stores of a hydraulic bound into a water-content cell")
 
+# --------------------------------------------------------------------------------------------- C03.d / C03.e
+
+HYDRAULIC = {"th_wp", "th_fc", "th_s", "th_dry", "th_fc_Adj"}
+
+
+def _hyd_subs(e: ast.AST) -> List[ast.Subscript]:
+    out = []
+    for x in ast.walk(e):
+        if isinstance(x, ast.Subscript):
+            v = x.value
+            if (isinstance(v, ast.Attribute) and v.attr in HYDRAULIC) or (isinstance(v, ast.Name) and any(v.id.endswith(h) for h in HYDRAULIC)):
+                out.append(x)
+    return out
+
+
+def _enclosing_loops(fn: ast.AST) -> Dict[int, List[ast.AST]]:
+    enc: Dict[int, List[ast.AST]] = {}
+    def walk(stmts, loops):
+        for st in stmts:
+            enc[id(st)] = loops
+            if isinstance(st, (ast.FunctionDef, ast.AsyncFunctionDef, ast.ClassDef)):
+                continue
+            inner = loops + [st] if isinstance(st, (ast.For, ast.While)) else loops
+            for fld in ("body", "orelse", "finalbody"):
+                sub = getattr(st, fld, None)
+                if isinstance(sub, list):
+                    walk(sub, inner if fld == "body" else loops)
+            for h in getattr(st, "handlers", []) or []:
+                walk(h.body, loops)
+    walk(fn.body, [])
+    return enc
+
+
+def _layer_change_idiom(fi, flow, use_nid: int, tname: str, idx: str, d_in: List[int], d_out: List[int]) -> Tuple[bool, str]:
+    """the definitions d_in of the threshold inside the loop are executed whenever the compartment enters a new layer,
+    and certainly on the first iteration, so the definitions d_out from before the loop never reach the use:
+        L = <obj>.Layer[idx];  if L > P:  T = <own bounds>;  P = L      with P a constant < 1 before the loop"""
+    cfg = flow.cfg
+    if not d_in:
+        return False, "no definition inside the loop"
+    guards = set()
+    for d in d_in:
+        cds = [(t, l) for t, l in cfg.control_deps().get(d, set()) if cfg.nodes[t].kind == "test"]
+        hit = None
+        for t, l in cds:
+            c = cfg.nodes[t].ast
+            if l is True and isinstance(c, ast.Compare) and len(c.ops) == 1 and isinstance(c.ops[0], ast.Gt) \
+                    and isinstance(c.left, ast.Name) and isinstance(c.comparators[0], ast.Name):
+                hit = (t, c.left.id, c.comparators[0].id)
+        if hit is None:
+            return False, "a definition inside the loop is not guarded by a layer-change test"
+        guards.add(hit)
+    if len(guards) != 1:
+        return False, "several different guards"
+    t, L, P = guards.pop()
+    # L is this iteration's layer number
+    ld = flow.defs_reaching(L, t)
+    if len(ld) != 1 or ld[0] == ENTRY:
+        return False, f"{L} has several definitions"
+    la = cfg.nodes[ld[0]].ast
+    if not (isinstance(la, ast.Assign) and isinstance(la.value, ast.Subscript) and isinstance(la.value.value, ast.Attribute)
+            and la.value.value.attr == "Layer" and norm(la.value.slice) == idx):
+        return False, f"{L} is not the layer number of compartment [{idx}]"
+    # P: constants < 1 from before the loop, `P = L` inside the guarded block
+    for pd in flow.defs_reaching(P, t):
+        if pd == ENTRY:
+            return False, f"{P} is a parameter"
+        pa = cfg.nodes[pd].ast
+        if not (isinstance(pa, ast.Assign) and len(pa.targets) == 1 and isinstance(pa.targets[0], ast.Name)):
+            return False, f"{P} has an unrecognised definition"
+        v = pa.value
+        if isinstance(v, ast.UnaryOp) and isinstance(v.op, ast.USub) and isinstance(v.operand, ast.Constant):
+            v = ast.Constant(value=-v.operand.value)
+        if isinstance(v, ast.Constant) and isinstance(v.value, (int, float)) and not isinstance(v.value, bool):
+            if not v.value < 1:
+                return False, f"{P} starts at {v.value}, not below the first layer number 1"
+            continue
+        if isinstance(v, ast.Name) and v.id == L and (t, True) in cfg.control_deps().get(pd, set()):
+            continue
+        return False, f"the previous-layer marker {P} is initialised with `{norm(pa.value)}`: the first compartment's layer is then not " \
+                      f"seen as a new layer and the threshold computed before the loop reaches the refill"
+    return True, f"recomputed from compartment [{idx}]'s own bounds at every layer change ({L} > {P}, {P} starts below 1)"
+
+
+def _threshold_use(chk, fi, flow, enc, a, t, idx, nm, at) -> Tuple[bool, str]:
+    cfg = flow.cfg
+    loops = enc.get(id(a), [])
+    inner = loops[-1] if loops else None
+    body_ids = {flow.stmt_node.get(id(s)) for s in ast.walk(inner) if isinstance(s, ast.stmt)} if inner is not None else set()
+    rd = flow.defs_reaching(nm, at)
+    bad, d_in, d_out = [], [], []
+    for d in rd:
+        if d == ENTRY:
+            bad.append("a parameter")
+            continue
+        (d_in if d in body_ids else d_out).append(d)
+        da = cfg.nodes[d].ast
+        hs = _hyd_subs(da.value) if isinstance(da, ast.Assign) else []
+        if d in body_ids or inner is None:
+            wrong = sorted({norm(h) for h in hs if norm(h.slice) != idx})
+            if wrong:
+                bad.append(f"`{norm(da)[:80]}` reads {', '.join(wrong)}, not compartment [{idx}]")
+    if bad:
+        return False, (f"the threshold {nm} that bounds / supplies the water content of compartment [{idx}] is not computed from that "
+                       f"compartment's own hydraulic properties: {'; '.join(bad)}")
+    if inner is None or not d_out:
+        stale = [d for d in d_in if any(set(flow.defs_reaching(v.id, d)) != set(flow.defs_reaching(v.id, at))
+                                        for v in ast.walk(t.slice) if isinstance(v, ast.Name))]
+        if stale and inner is not None:
+            ok, why = _layer_change_idiom(fi, flow, at, nm, idx, d_in, [])
+            if not ok:
+                return False, f"{nm} may have been computed for another compartment ({why})"
+            chk.assume("A-17")
+            return True, why
+        return True, f"computed from compartment [{idx}]'s own hydraulic properties in the same iteration"
+    ok, why = _layer_change_idiom(fi, flow, at, nm, idx, d_in, d_out)
+    if ok:
+        chk.assume("A-17")
+        return True, why
+    outs = "; ".join(f"`{norm(cfg.nodes[d].ast)[:70]}`" for d in d_out)
+    return False, f"a threshold computed before the loop ({outs}) can reach the store into compartment [{idx}]: {why}"
+
+
+def rule_d(chk, prog, rule="C03.d", only=None, floor=15):
+    """every threshold local that decides or supplies the water content stored into compartment j is computed from compartment j's
+    own hydraulic properties"""
+    roles = step_roles(prog)
+    step = prog.func(STEP_FN)
+    n_sites = 0
+    for key in sorted(roles.reached):
+        fi = prog.funcs[key]
+        if not fi.module.startswith("aquacrop.solution") or (only and fi.name not in only):
+            continue
+        wl = _water_locals(prog, fi, step)
+        flow = flow_of(fi)
+        cfg = flow.cfg
+        where = f"{fi.module}:{fi.qualname}"
+        enc = _enclosing_loops(fi.node)
+        # threshold locals: some definition is built from hydraulic-property elements
+        thr: Set[str] = set()
+        defs_of: Dict[str, List[ast.Assign]] = {}
+        for a in walk_no_nested(fi.node):
+            if isinstance(a, ast.Assign) and len(a.targets) == 1 and isinstance(a.targets[0], ast.Name):
+                defs_of.setdefault(a.targets[0].id, []).append(a)
+                # a pure function of hydraulic properties: no water-content cell is read in it
+                if _hyd_subs(a.value) and not any(isinstance(x, ast.Subscript) and x not in _hyd_subs(a.value)
+                                                  and (_is_water_array(fi, x.value, roles, wl) or "th" in norm(x.value).lower().split(".")[-1].split("_"))
+                                                  for x in ast.walk(a.value)):
+                    thr.add(a.targets[0].id)
+        if not thr:
+            continue
+        for a in walk_no_nested(fi.node):
+            if not (isinstance(a, ast.Assign) and isinstance(a.targets[0], ast.Subscript)):
+                continue
+            t = a.targets[0]
+            if not _is_water_array(fi, t.value, roles, wl):
+                continue
+            nid = flow.stmt_node.get(id(a))
+            if nid is None:
+                continue
+            idx = norm(t.slice)
+            # names feeding the stored value, through scalar locals defined in the same loop iteration (depth <= 3)
+            work = [(x.id, nid) for x in ast.walk(a.value) if isinstance(x, ast.Name)]
+            seen: Set[Tuple[str, int]] = set()
+            uses: List[Tuple[str, int]] = []
+            depth = {w: 0 for w in work}
+            while work:
+                nm, at = work.pop()
+                if (nm, at) in seen:
+                    continue
+                seen.add((nm, at))
+                if nm in thr:
+                    uses.append((nm, at))
+                    continue
+                if depth.get((nm, at), 0) >= 3:
+                    continue
+                for d in flow.defs_reaching(nm, at):
+                    if d == ENTRY:
+                        continue
+                    da = cfg.nodes[d].ast
+                    if isinstance(da, ast.Assign) and len(da.targets) == 1 and isinstance(da.targets[0], ast.Name) \
+                            and enc.get(id(da)) == enc.get(id(a)):
+                        for x in ast.walk(da.value):
+                            if isinstance(x, ast.Name):
+                                depth[(x.id, d)] = depth.get((nm, at), 0) + 1
+                                work.append((x.id, d))
+            by_name: Dict[str, List[int]] = {}
+            for nm, at in sorted(set(uses)):
+                by_name.setdefault(nm, []).append(at)
+            for nm, ats in sorted(by_name.items()):
+                n_sites += 1
+                chk.fn(key)
+                construct = f"{norm(a)[:70]} <- {nm}"
+                verdicts = [_threshold_use(chk, fi, flow, enc, a, t, idx, nm, at) for at in ats]
+                fails = [v for v in verdicts if not v[0]]
+                if fails:
+                    chk.violation(rule, where, construct, fails[0][1], loc=fi.loc(a))
+                else:
+                    chk.ok(rule, where, construct, verdicts[0][1])
+    chk.floor(rule, n_sites, floor, "threshold locals feeding a store into a water-content cell")
+    if only:
+        return
+    # C03.e index kinds
+    from . import _kinds
+    n = _kinds.scan(chk, prog, "C03.e", roles.reached)
+    chk.floor("C03.e", len([i for i in chk.instances if i["rule"] == "C03.e"]), 4, "layer-number locals / sites examined")
+
 
 def run(chk, prog, tier):
     rule_a(chk, prog)
     rule_b(chk, prog)
     rule_c(chk, prog)
+    rule_d(chk, prog)
     chk.assume("A-1")
